@@ -6,8 +6,8 @@ import ast
 from sa.astx import assigned_targets, call_attr, call_name, dotted, src, statements, walk_local
 from sa.domains import CTL, HEXDIG, TCHAR, fmt_set
 from sa.selftest import Mutant, Silent
-from sa.source import class_assigns, methods
-from sa.props._lib_e import (Raised, Unknown, Unsupported, assigns_self, call_in, calls_named, catches, handlers_of, http_interp, is_const,
+from sa.source import AnalysisError, class_assigns, methods
+from sa.props._lib_e import (Raised, Unknown, Unsupported, assigns_self, call_in, calls_named, catches, check_hex_validators, handlers_of, http_interp, is_const,
                              is_falsy_return, make_env, no_exc, only_nodes_until_exit, ordered, resolve_local, self_attr, walk)
 
 PROPERTY = "C22"
@@ -92,19 +92,8 @@ def _state_table(ctx):
 
 
 def _pure(ctx, I):
-    singles = [bytes([v]) for v in range(256)]
-    dom = [b""] + singles + [b"a" + s for s in singles] + [s + b"1" for s in singles] + [b"0x1", b"+1", b"-1", b" 1", b"1 ", b"1_0", b"ff", b"FF", b"0", b"000a", b"1\n"]
-    f = ctx.func(ABNF, "_hexint")
-    bad = None
-    for x in dom:
-        kind, val = I.outcome(f, [x])
-        want = bool(x) and all(c in HEXDIG for c in x)
-        good = (kind == "ok" and val == int(x, 16)) if want else (kind == "raise" and I.is_sub(val, "ValueError"))
-        if not good and bad is None:
-            bad = (x, kind, val)
-    ctx.check(bad is None, "size/hex-only", "twisted.web._abnf._hexint",
-              f"_hexint({bad[0]!r}) gives {bad[1]} {bad[2]!r}: a chunk size must be 1*HEXDIG (no sign, 0x, whitespace, underscore)" if bad else "",
-              detail=f"{len(dom)} size texts decided as RFC 9112 7.1 chunk-size")
+    with ctx.section("hex validators"):
+        check_hex_validators(ctx, I, "size")
     ft, ff = ctx.func(HTTP, "toChunk"), ctx.func(HTTP, "fromChunk")
     bad = None
     for d in (b"a", b"hello world", b"x" * 15, b"x" * 16, b"x" * 255, b"x" * 256, b"\r\n", b"5\r\nab", bytes(range(256))):
@@ -167,7 +156,9 @@ class _Step:
         vis = walk(self.g, self.I, make_env(env), on_node=on, escapes=esc)
         out = "raise" if _hit(vis, self.raises) else ("wait" if _hit(vis, self.waits) else ("go" if _hit(vis, self.goes) else "?"))
         if sum([_hit(vis, self.raises), _hit(vis, self.waits), _hit(vis, self.goes)]) != 1 or esc:
-            out = "ambiguous" if not esc else f"escape:{esc[0][1]}"
+            if not esc and sum([_hit(vis, self.raises), _hit(vis, self.waits), _hit(vis, self.goes)]) > 1:
+                raise AnalysisError(f"{self.q}: outcome for buffer {bytes(buf)[:30]!r} not decidable by the partial evaluator")
+            out = "?" if not esc else f"escape:{esc[0][1]}"
         st = sorted(s for s, ns in self.states.items() if _hit(vis, ns))
         final = next(iter(exits.values()), {}) if len(exits) == 1 else {}
         return out, st, calls, final
@@ -348,22 +339,31 @@ def _callouts(ctx, steps):
 
 def check(ctx):
     I = http_interp(ctx)
-    _state_table(ctx)
-    _pure(ctx, I)
+    with ctx.section("state table"):
+        _state_table(ctx)
+    with ctx.section("pure functions"):
+        _pure(ctx, I)
     limit = I.consts.get("maxChunkSizeLineLength")
     ctx.check(isinstance(limit, int) and limit >= 16, "size-line/limit", Q + "maxChunkSizeLineLength", f"maxChunkSizeLineLength is {limit!r}")
     init = ctx.func(HTTP, "_ChunkedTransferDecoder.__init__")
     mt = [st.value for st in ast.walk(init) if isinstance(st, ast.Assign) and any(self_attr(t, "_maxTrailerHeadersSize") for t in st.targets)]
     ctx.need(mt, "_maxTrailerHeadersSize in _ChunkedTransferDecoder.__init__")
     M = I.ev(mt[0], {})
-    a = _chunk_length(ctx, I, limit if isinstance(limit, int) else 1024)
-    _raise_kinds(ctx, I)
-    s, b, t = _crlf_body_trailer(ctx, I, M)
-    _callouts(ctx, [a, s, b, t])
+    steps = []
+    with ctx.section("CHUNK_LENGTH"):
+        steps.append(_chunk_length(ctx, I, limit if isinstance(limit, int) else 1024))
+    with ctx.section("raise kinds / FINISHED / noMoreData"):
+        _raise_kinds(ctx, I)
+    with ctx.section("CRLF / BODY / TRAILER"):
+        steps.extend(_crlf_body_trailer(ctx, I, M))
+    with ctx.section("call-outs"):
+        ctx.need(len(steps) == 4, "all four parsing state handlers stepped")
+        _callouts(ctx, steps)
 
 
 MUTANTS = [
-    Mutant("hexdigits-accept-plus-space", ABNF, "        if c not in b\"0123456789abcdefABCDEF\":", "        if c not in b\"0123456789abcdefABCDEF +\":", expect_rule="size/hex-only"),
+    Mutant('hexdigits-regex-dollar-accepts-trailing-newline', ABNF, '    for c in b:\n        if c not in b"0123456789abcdefABCDEF":\n            return False\n    return b != b""\n', '    return _HEX_RE.match(b) is not None\n', more=[(ABNF, '"""\n\n\ndef _istoken', '"""\n\nimport re\n\n_HEX_RE = re.compile(rb"[0-9a-fA-F]+$")\n\n\ndef _istoken')], expect_rule='size/hex'),
+    Mutant("hexdigits-accept-plus-space", ABNF, "        if c not in b\"0123456789abcdefABCDEF\":", "        if c not in b\"0123456789abcdefABCDEF +\":", expect_rule="size/hex"),
     Mutant("size-by-int-base16", HTTP, "            length = _hexint(rawLength)\n        except ValueError:", "            length = int(rawLength, 16)\n        except ValueError:", expect_rule="reject/size-not-hex"),
     Mutant("size-error-not-converted", HTTP, "            length = _hexint(rawLength)\n        except ValueError:", "            length = _hexint(rawLength)\n        except TypeError:", expect_rule="reject/"),
     Mutant("crlf-check-dropped", HTTP, "        if not self._buffer.startswith(b\"\\r\\n\"):\n            raise _MalformedChunkedDataError(\"Chunk did not end with CRLF\")\n\n", "", expect_rule="reject/chunk-not-followed-by-crlf"),
@@ -401,6 +401,9 @@ MUTANTS = [
     Mutant("fromChunk-crlf-unchecked", HTTP, "    if rest[length : length + 2] != b\"\\r\\n\":\n        raise ValueError(\"chunk must end with CRLF\")\n", "", expect_rule="reject/fromChunk"),
 ]
 SILENT = [
+    Silent('hexdigits-regex-fullmatch', ABNF, '    for c in b:\n        if c not in b"0123456789abcdefABCDEF":\n            return False\n    return b != b""\n', '    return _HEX_RE.fullmatch(b) is not None\n', more=[(ABNF, '"""\n\n\ndef _istoken', '"""\n\nimport re\n\n_HEX_RE = re.compile(rb"[0-9a-fA-F]+")\n\n\ndef _istoken')]),
+    Silent('hexdigits-regex-Z-anchored', ABNF, '    for c in b:\n        if c not in b"0123456789abcdefABCDEF":\n            return False\n    return b != b""\n', '    return _HEX_RE.match(b) is not None\n', more=[(ABNF, '"""\n\n\ndef _istoken', '"""\n\nimport re\n\n_HEX_RE = re.compile(rb"[0-9a-fA-F]+\\Z")\n\n\ndef _istoken')]),
+    Silent('hexdigits-translate-table', ABNF, '    for c in b:\n        if c not in b"0123456789abcdefABCDEF":\n            return False\n    return b != b""\n', '    return b != b"" and b.translate(None, b"0123456789abcdefABCDEF") == b""\n'),
     Silent("limit-test-negated", HTTP, "        if eolIndex >= maxChunkSizeLineLength or (", "        if not eolIndex < maxChunkSizeLineLength or ("),
     Silent("zero-length-falsy", HTTP, "        if length == 0:\n            self.state = \"TRAILER\"", "        if not length:\n            self.state = \"TRAILER\""),
     Silent("crlf-by-slice", HTTP, "        if not self._buffer.startswith(b\"\\r\\n\"):", "        if self._buffer[:2] != b\"\\r\\n\":"),
